@@ -39,7 +39,7 @@ Step ==
      \/ e.a = "EndReplication" /\ D!EndReplication /\ op'.res = e.res
      \/ e.a = "Cleanup" /\ D!Cleanup /\ e.res = "ok"
      \/ e.a = "Pause" /\ D!Pause
-     \/ e.a = "Notif" /\ (D!Emit \/ D!AnnounceTC) /\ op'.ty = e.ty /\ op'.ts = e.ts
+     \/ e.a = "Notif" /\ (D!Emit \/ D!AnnounceTC) /\ op'.ty = e.ty /\ (op'.ts = e.ts \/ op'.ts = D!AnyTs)
      \/ e.a = "Exec" /\ D!ExecNextWith([ops |-> OpsOf(e.ops), raise |-> e.raise])
                      /\ op'.id = e.id /\ op'.clk = e.clk /\ op'.kind = e.kind
                      /\ op'.res = SeqOf(e.res)
